@@ -10,7 +10,7 @@
   A history is an arbitrary `List Op`: handles of `next`/`close` are arbitrary numbers, so every
   interleaving of open calls and open retracts with updates is covered — nested (LIFO) or not.
 -/
-import PrologVerif.Proofs.DB
+import PrologVerif.Proofs.DBRetractall
 import PrologVerif.Generated.Bootstrap
 namespace PrologVerif.C09
 open PrologVerif PrologVerif.DB
@@ -268,6 +268,73 @@ theorem C09_error_changes_nothing (v : Variant) (m : State) (o : Op) (e : Term)
     fun_cases close m hd <;> simp
   | listing pi => rfl
 
+/-! ### retractall/1 -/
+
+/-- the clauses of retractall/1 in bootstrap.pl, as the theorems below read them -/
+def retractallClauses : List Term :=
+  [ Term.a2 ":-" (Term.a1 "retractall" (.var 0))
+      (Term.a2 "," (Term.a1 "retract" (Term.a2 ":-" (.var 0) (.var 1))) (.atom "fail")),
+    Term.a1 "retractall" (.var 0) ]
+
+def isRetractallClause : Term → Bool
+  | .app "retractall" (.cons _ .nil) => true
+  | .app ":-" (.cons (.app "retractall" (.cons _ .nil)) (.cons _ .nil)) => true
+  | _ => false
+
+/-- tie: these ARE the clauses of retractall/1 that the real parser reads from bootstrap.pl
+    (regenerated on every run): a failure-driven loop over `retract((Head :- _))`, then success —
+    which is what `DB.retractall` / `DB.drain` execute on the model -/
+theorem C09_retractall_bootstrap_tie :
+    Generated.bootstrapTerms.filter isRetractallClause = retractallClauses := by decide +kernel
+
+/-- **C09_retractall**: on the repaired code, `retractall(Head)` for a dynamic predicate with
+    clauses `cs` (given enough fuel for the loop: one backtrack per clause) always succeeds,
+    leaves exactly the clauses whose clause term does not unify with `Head :- _` — in their
+    order —, and touches no other predicate. -/
+theorem C09_retractall (m : State) (hinv : Inv m) (head : Term) (pi : PI) (cs : List Stored) (fuel : Nat)
+    (hpi : piArg head = .ok pi) (hg : m.procs.get pi = some ⟨true, cs⟩) (hf : cs.length < fuel) :
+    (retractall .fixed fuel m head).2 = .ok ∧
+    (retractall .fixed fuel m head).1.procs.get pi =
+      some ⟨true, LUV.survivors (.a2 ":-" head (.var (maxVar head))) m.nextVar cs⟩ ∧
+    (∀ pi', pi' ≠ pi → (retractall .fixed fuel m head).1.procs.get pi' = m.procs.get pi') := by
+  have hr := retractall_refines fuel m hinv head
+  obtain ⟨s', hs, hp, ho, _⟩ := LUV_retractall_spec (abs m) head pi cs fuel hpi hg (hinv pi _ hg).1 hf
+  rw [hs] at hr
+  simp only [Prod.mk.injEq] at hr
+  obtain ⟨h1, h2⟩ := hr
+  refine ⟨h2.symm, ?_, ?_⟩
+  · have : (abs (retractall .fixed fuel m head).1).procs = s'.procs := by rw [← h1]
+    rw [abs_procs] at this
+    rw [this]
+    exact hp
+  · intro pi' hne
+    have : (abs (retractall .fixed fuel m head).1).procs = s'.procs := by rw [← h1]
+    rw [abs_procs] at this
+    rw [this]
+    exact ho pi' hne
+
+/-- a survivor does not unify, a removed clause does: `survivors` is a sublist that keeps
+    exactly the clauses that fail the (renamed) unification test -/
+theorem C09_survivors_sublist (pat : Term) (nv : Nat) (cs : List Stored) :
+    (LUV.survivors pat nv cs).Sublist cs := by
+  induction cs generalizing nv with
+  | nil => exact List.Sublist.slnil
+  | cons c cs ih =>
+    unfold LUV.survivors
+    split
+    · exact List.Sublist.cons _ (ih _)
+    · exact List.Sublist.cons_cons _ (ih _)
+
+/-- retractall/1 of a predicate that does not exist succeeds and changes no procedure
+    (it does not create the predicate either — a deviation from ISO 8.9.5 outside C09) -/
+theorem C09_retractall_undefined (m : State) (hinv : Inv m) (head : Term) (pi : PI) (fuel : Nat)
+    (hpi : piArg head = .ok pi) (hg : m.procs.get pi = none) :
+    (retractall .fixed (fuel + 1) m head).2 = .ok ∧ (retractall .fixed (fuel + 1) m head).1.procs = m.procs := by
+  have hr := retractall_refines (fuel + 1) m hinv head
+  obtain ⟨h1, h2⟩ := LUV_retractall_undefined (abs m) head pi fuel hpi hg
+  rw [hr] at h1 h2
+  exact ⟨h1, h2⟩
+
 /-! ### no Go panic -/
 
 /-- **C09_no_panic**: the repaired `Retract` never slices out of range (and `t.(Compound)` after
@@ -315,5 +382,11 @@ example : (run .fixed { State.empty with nextVar := 100 } demoHistory).2 =
       .listing true true [Term.a1 "p" (.int 9)] ] := by decide +kernel
 
 example : Inv (run .fixed State.empty demoHistory).1 := C09_inv _ _ inv_empty _
+
+/-- retractall(p(1)) after three asserts: the clause p(_) unifies too, p(2) survives -/
+example : (retractall .fixed 10 (run .fixed { State.empty with nextVar := 100 }
+      [.assertz (Term.a1 "p" (.int 1)), .assertz (Term.a1 "p" (.var 7)), .assertz (Term.a1 "p" (.int 2))]).1
+    (Term.a1 "p" (.int 1))).1.procs.get ⟨"p", 1⟩ = some ⟨true, [⟨2, Term.a1 "p" (.int 2)⟩]⟩ := by
+  decide +kernel
 
 end PrologVerif.C09
